@@ -128,14 +128,50 @@ def eval_case(case):
     raise ValueError(kind)
 
 
+def declared_templates():
+    """library name -> name templates written in the library TEXT of kyupy/techlib.py, read from the module source with `ast`
+    (independently of `TechLib.__init__`): every `NAME = TechLib(<string>)`; entries are separated by `;`, the first word of
+    an entry is its name template. A cell that the constructor silently drops is still listed here."""
+    import ast, inspect
+    from kyupy import techlib
+    out, env = {}, {}
+    tree = ast.parse(inspect.getsource(techlib))
+    def ev(expr):       # string expressions over earlier module-level strings (`_nangate_common + r"""..."""`)
+        return eval(compile(ast.Expression(expr), '<techlib>', 'eval'), {'__builtins__': {}}, dict(env))
+    for node in tree.body:
+        if not isinstance(node, ast.Assign): continue
+        names = [t.id for t in node.targets if isinstance(t, ast.Name)]
+        if isinstance(node.value, ast.Call) and getattr(node.value.func, 'id', None) == 'TechLib' and node.value.args:
+            try: src = ev(node.value.args[0])
+            except Exception: continue
+            if not isinstance(src, str): continue
+            tmpls = []
+            for ent in src.split(';'):
+                w = ent.split()
+                if w: tmpls.append(w[0])
+            for nm in names: out[nm] = tmpls
+        else:
+            try: v = ev(node.value)
+            except Exception: continue
+            if isinstance(v, str):
+                for nm in names: env[nm] = v
+    return out
+
+
 def oracle(ck, variants):
     census = collections.Counter()
     failing = []
+    try: declared = declared_templates()
+    except Exception as ex: declared = {}; ck.notes.append(f'library text not readable from the module source: {type(ex).__name__}: {ex}'[:200])
     for ln in LIBS:
         lib = _lib(ln)
         templates = []
         for cell, (c, pd) in lib.cells.items():
             if c.name not in templates: templates.append(c.name)
+        # every template written in the library text must have its cells (a dropped entry has no cell to complain through)
+        for t in declared.get(ln, []):
+            if t not in templates: templates.append(t)
+        ck.hist[f'declared-templates:{ln}'] += len(declared.get(ln, []))
         for t in templates:
             case = {'kind': 'expand', 'lib': ln, 'template': t}
             try: ok, obs, exp = eval_case(case)
